@@ -17,6 +17,7 @@ import WpModel.Model.NumericC07
 import WpModel.Model.TracksC07
 import WpModel.Model.GradientC07
 import WpModel.Model.GridLineC07
+import WpModel.Model.FontFamilyC07
 
 namespace Wp.Drive.C07
 open Wp Wp.Decl
@@ -556,6 +557,16 @@ def handle (cmd : String) (args : List Sx) : Option String :=
     let ctx : Len07.FontCtx := { fontSize := ← fs.rat?, rootFontSize := ← rfs.rat?, exRatio := ← ex.rat?,
                                  chRatio := ← ch.rat? }
     pure (Sx.list ((Tracks07.gridAuto ctx (← allSome track? ts)).map trackSx)).render
+  | "font-family", [.list parts] => do
+    let ftok? (x : Sx) : Option Font07.FTok := match x with
+      | .list [.atom "s", v] => (str? v).map .str
+      | .list [.atom "i", v] => (str? v).map .ident
+      | .atom "x" => some .other
+      | _ => none
+    let parts ← allSome (fun p => p.list?.bind (allSome ftok?)) parts
+    pure (match Font07.fontFamily parts with
+      | none => "invalid"
+      | some fs => "ok" ++ String.join (fs.map fun f => " " ++ encodeAtom f))
   | "opacity", [tok] => do
     pure (match Num07.opacityValidate (← ltok? tok) with
       | none => "invalid"
